@@ -686,6 +686,13 @@ class Engine:
                 if hasattr(base, 'delitem'):
                     base.delitem(self, self.eval(t.slice))
                     continue
+                if isinstance(base, dict):
+                    key = self.eval(t.slice)
+                    if isinstance(key, (str, int)):
+                        if key not in base:
+                            raise PyRaise('KeyError')
+                        del base[key]               # a dictionary with concrete keys: plain execution
+                        continue
             if isinstance(t, ast.Attribute):
                 base = self.eval(t.value)
                 if isinstance(base, Obj):
